@@ -30,6 +30,7 @@ class State:
         self.decl = {}
         self.pre = {}
         self.ghost = set()
+        self.domain = []  # well-formedness of symbolic initial values (unused high bits of masks are zero, ...)
 
     def declare(self, name, sort, init=None, ghost=False):
         if name in self.decl:
@@ -402,7 +403,7 @@ class System:
             fuel -= 1
             if fuel < 0:
                 raise Unsupported("thread-local loop without a visible operation")
-            if node.kind == "call" and self.objects[node.obj]["model"].fused(node.method):
+            if node.kind == "call" and self.objects[node.obj]["model"].fused(node.method, t):
                 model = self.objects[node.obj]["model"]
                 reads = set()
                 args = [self.ev(a, env, reads) for a in node.args]
